@@ -75,6 +75,8 @@ structure Svc where
   sel : Labels
   drain : Bool             -- label istio.io/persistent-session set
   td : Bool                -- annotation networking.istio.io/traffic-distribution: PreferClose
+  x : Bool := false        -- annotation networking.istio.io/exportTo: "~" (exported to nobody)
+  sas : Bool := false      -- annotation alpha.istio.io/kubernetes-serviceaccounts: "acct1,acct2"
   deriving DecidableEq, Repr, Inhabited
 
 structure Ep where
@@ -108,8 +110,9 @@ structure Pod where
 
 structure Node where
   name : String
-  region : String
-  zone : String
+  region : String          -- topology.kubernetes.io/region, else failure-domain.beta.kubernetes.io/region
+  zone : String            -- topology.kubernetes.io/zone, else the legacy label
+  sub : String := ""       -- topology.istio.io/subzone
   deriving DecidableEq, Repr, Inhabited
 
 /-- a Namespace: the only thing read is the traffic-distribution annotation -/
@@ -147,6 +150,9 @@ structure IEp where
   locality : String
   workload : String
   labels : Labels
+  network : String := ""
+  hostname : String := ""
+  subdomain : String := ""
   deriving DecidableEq, Repr, Inhabited
 
 /-- `endpointHealthStatus`; `svc = none` is the nil `*model.Service` of a service not (yet) in
@@ -166,35 +172,51 @@ def labelSet (l : Labels) (k v : String) : Labels := aset k v l
 /-- Go map built from a literal list: the last binding of a key wins. -/
 def normLabels (l : Labels) : Labels := l.foldl (fun acc kv => aset kv.1 kv.2 acc) []
 
-/-- `getPodLocality` (no `istio-locality` label in the universe): region/zone of the pod's node,
-    read from the node store at the time the endpoint is built. -/
+/-- `SanitizeLocalityLabel`: a label value without `/` uses `.` as separator -/
+def sanitizeLocality (v : String) : String :=
+  if v.toList.contains '/' then v else String.ofList (v.toList.map fun c => if c = '.' then '/' else c)
+
+/-- `getPodLocality`: the pod's `istio-locality` label if it has one, else region/zone/subzone of the
+    pod's node, read from the node store at the time the endpoint is built. -/
 def localityOf (nodes : List Node) (p : Pod) : String :=
-  match nodes.find? (·.name = p.node) with
-  | none => ""
-  | some n => if n.region = "" ∧ n.zone = "" then "" else n.region ++ "/" ++ n.zone ++ "/"
+  match alookup "istio-locality" (normLabels p.labels) with
+  | some v => if v ≠ "" then sanitizeLocality v else
+      match nodes.find? (·.name = p.node) with
+      | none => ""
+      | some n => if n.region = "" ∧ n.zone = "" ∧ n.sub = "" then "" else n.region ++ "/" ++ n.zone ++ "/" ++ n.sub
+  | none =>
+    match nodes.find? (·.name = p.node) with
+    | none => ""
+    | some n => if n.region = "" ∧ n.zone = "" ∧ n.sub = "" then "" else n.region ++ "/" ++ n.zone ++ "/" ++ n.sub
 
 /-- `strings.Split(s, "/")` on characters (structural, so that the kernel can evaluate it) -/
 def splitSlash : List Char → List Char → List (List Char)
   | cur, [] => [cur.reverse]
   | cur, c :: r => if c = '/' then cur.reverse :: splitSlash [] r else splitSlash (c :: cur) r
 
-/-- `SplitLocalityLabel`: region and zone -/
-def splitLocality (loc : String) : String × String :=
+/-- `SplitLocalityLabel`: region, zone and subzone -/
+def splitLocality (loc : String) : String × String × String :=
   match splitSlash [] loc.toList with
-  | [r] => (String.ofList r, "")
-  | r :: z :: _ => (String.ofList r, String.ofList z)
-  | [] => ("", "")
+  | [r] => (String.ofList r, "", "")
+  | [r, z] => (String.ofList r, String.ofList z, "")
+  | r :: z :: sz :: _ => (String.ofList r, String.ofList z, String.ofList sz)
+  | [] => ("", "", "")
+
+/-- pseudo labels (`@owner`, `@host`, `@sub`) carry pod fields that are not labels: the controlling
+    ownerReference, `spec.hostname`, `spec.subdomain` (immutable for a pod) -/
+def realLabels (l : Labels) : Labels := l.filter fun kv => kv.1.toList.head? ≠ some '@'
 
 /-- `labelutil.AugmentLabels` followed by the network label assignment of `buildIstioEndpoint`
     (the network is empty in the universe, the key is still written). -/
 def augment (podLabels : Labels) (locality node : String) : Labels :=
   let rz := splitLocality locality
-  let l := normLabels podLabels
+  let l := normLabels (realLabels podLabels)
   let l := if rz.1 ≠ "" then labelSet l "topology.kubernetes.io/region" rz.1 else l
-  let l := if rz.2 ≠ "" then labelSet l "topology.kubernetes.io/zone" rz.2 else l
+  let l := if rz.2.1 ≠ "" then labelSet l "topology.kubernetes.io/zone" rz.2.1 else l
+  let l := if rz.2.2 ≠ "" then labelSet l "topology.istio.io/subzone" rz.2.2 else l
   let l := labelSet l "topology.istio.io/cluster" "fake"
   let l := if node ≠ "" then labelSet l "kubernetes.io/hostname" node else l
-  labelSet l "topology.istio.io/network" ""
+  labelSet l "topology.istio.io/network" ((alookup "topology.istio.io/network" l).getD "")
 
 /-- `NewEndpointBuilder(pod).buildIstioEndpoint(...)` -/
 def mkIEp (nodes : List Node) (pod : Option Pod) (addr : String) (port : String × Nat) (h : Health) : IEp :=
@@ -208,8 +230,11 @@ def mkIEp (nodes : List Node) (pod : Option Pod) (addr : String) (port : String 
       sa := "spiffe://cluster.local/ns/" ++ p.ns ++ "/sa/" ++ p.sa, ns := p.ns, node := p.node,
       tls := (alookup "security.istio.io/tlsMode" pl).getD "disabled",
       locality := loc,
-      workload := (alookup "service.istio.io/workload-name" pl).getD p.name,
-      labels := augment p.labels loc p.node }
+      workload := (alookup "service.istio.io/workload-name" pl).getD ((alookup "@owner" pl).getD p.name),
+      labels := augment p.labels loc p.node,
+      network := (alookup "topology.istio.io/network" pl).getD "",
+      hostname := if (alookup "@sub" pl).getD "" ≠ "" then (match alookup "@host" pl with | some h => if h ≠ "" then h else p.name | none => p.name) else "",
+      subdomain := (alookup "@sub" pl).getD "" }
 
 def findPod (pods : List Pod) (ns name : String) : Option Pod :=
   pods.find? (fun p => p.ns = ns ∧ p.name = name)
